@@ -402,8 +402,11 @@ spif_objpair_comp(spif_objpair_t self, spif_obj_t other)
 {
     SPIF_OBJ_COMP_CHECK_NULL(self, other);
     if (SPIF_OBJ_IS_OBJPAIR(other)) {
+        /* A pair without a key sorts before any pair that has one. */
+        SPIF_OBJ_COMP_CHECK_NULL(self->key, SPIF_OBJPAIR(other)->key);
         return SPIF_OBJ_COMP(self->key, SPIF_OBJPAIR(other)->key);
     } else {
+        REQUIRE_RVAL(!SPIF_OBJ_ISNULL(self->key), SPIF_CMP_LESS);
         return SPIF_OBJ_COMP(self->key, other);
     }
 }
@@ -425,6 +428,19 @@ spif_objpair_t
 spif_objpair_dup(spif_objpair_t self)
 {
     ASSERT_RVAL(!SPIF_OBJPAIR_ISNULL(self), (spif_objpair_t) NULL);
+    if (SPIF_OBJ_ISNULL(self->key) || SPIF_OBJ_ISNULL(self->value)) {
+        /* A pair may lack its key or its value; copy what is there. */
+        spif_objpair_t tmp = spif_objpair_new();
+
+        REQUIRE_RVAL(!SPIF_OBJPAIR_ISNULL(tmp), (spif_objpair_t) NULL);
+        if (!SPIF_OBJ_ISNULL(self->key)) {
+            tmp->key = SPIF_OBJ_DUP(self->key);
+        }
+        if (!SPIF_OBJ_ISNULL(self->value)) {
+            tmp->value = SPIF_OBJ_DUP(self->value);
+        }
+        return tmp;
+    }
     return spif_objpair_new_from_both(self->key, self->value);
 }
 
